@@ -214,12 +214,51 @@ def run(ctx):
         'query_feature_sets': len(by_feature),
         'exhaustive': not ctx.caps,
     })
+    if not ctx.new_violations():
+        conc_part(ctx)
     ctx.assumptions += ['oracle transcribes the statement of C03 literally over the raw rows',
                         'scope: <= 7 providers, <= 3 trees, depth <= 3, 4 classes, 4 traits, 3 '
                         'aggregates']
 
 
+def conc_part(ctx):
+    from vp import readcons
+    from vp.names import A as AA, P as PP
+    q = {
+        'VCPU:1,DISK_GB:3': 'resources=VCPU:1,DISK_GB:3',
+        'VCPU:1,DISK_GB:3 in_tree=P1': 'resources=VCPU:1,DISK_GB:3&in_tree=' + PP(1),
+        'VCPU:2': 'resources=VCPU:2',
+        'VCPU:1 required=T1': 'resources=VCPU:1&required=' + readcons.T1,
+        'VCPU:1 member_of=A1': 'resources=VCPU:1&member_of=' + AA(1),
+        'granular VCPU:1 + DISK_GB:3': 'resources1=VCPU:1&resources2=DISK_GB:3&group_policy=none',
+        'granular same_subtree': 'resources1=VCPU:1&resources2=DISK_GB:3&group_policy=none&'
+                                 'same_subtree=1,2',
+    }
+    pairs = [('VCPU:1,DISK_GB:3', 'PUT P4 under P1'), ('VCPU:1,DISK_GB:3', 'PUT P3 to top'),
+             ('VCPU:1,DISK_GB:3', 'reshaper: VCPU leaves P1, DISK_GB arrives on P2'),
+             ('VCPU:1,DISK_GB:3 in_tree=P1', 'PUT P1 under P2'),
+             ('VCPU:2', 'PUT allocations K1 (3 VCPU of P1)'),
+             ('VCPU:1 required=T1', 'PUT traits P1 (T1 -> T2)'),
+             ('VCPU:1 member_of=A1', 'PUT aggregates P1 (A1 -> A2)'),
+             ('granular VCPU:1 + DISK_GB:3', 'PUT P4 under P1'),
+             ('granular same_subtree', 'PUT P3 to top'),
+             ('granular same_subtree', 'PUT inventories P2 (+DISK_GB)')]
+    flat_pairs = [('VCPU:1,DISK_GB:3', 'PUT P4 under P1'),
+                  ('granular VCPU:1 + DISK_GB:3', 'PUT P4 under P1')]
+    triples = [('VCPU:1,DISK_GB:3', 'PUT P4 under P1', 'PUT inventories P1 (DISK_GB only)'),
+               ('VCPU:1,DISK_GB:3', 'PUT P3 to top', 'PUT inventories P2 (+DISK_GB)')]
+    # the first child provider ever is created and stocked while the search is being served
+    flat_triples = [('VCPU:1,DISK_GB:3', 'POST P5 under P1', 'PUT inventories P5 (VCPU + DISK_GB)'),
+                    ('granular VCPU:1 + DISK_GB:3', 'POST P5 under P1',
+                     'PUT inventories P5 (VCPU + DISK_GB)')]
+    sc = readcons.scenarios('/allocation_candidates', q, pairs, triples, flat_pairs, flat_triples)
+    readcons.run_part(ctx, 'C03', sc)
+
+
 def replay(ctx, data):
+    if data.get('engine') == 'conc':
+        from vp import explore_conc
+        return explore_conc.replay(ctx, data)
     from vp.boot import Harness
     from vp.http import call
     from vp.snapshot import Dump
